@@ -61,9 +61,16 @@ Flag(ok, name) == viol' = IF viol = "" /\ ~ok THEN name ELSE viol
 \* the advertised deadline is made before the node's own on-chain point for that HTLC
 MayShow(hh, E, D) == D > hh + 1 /\ D <= E - CCB
 
-\* forwarded: the incoming HTLC outlives the outgoing one by the node's delta (at least the
-\* minimum), and the outgoing one is not about to expire
-MayForward(hh, Eu, Ed, dd) == Eu >= Ed + dd /\ dd >= MIND /\ Ed > hh + 1
+Max(a, b) == IF a >= b THEN a ELSE b
+
+\* forwarded (B's update_add_htlc to C goes on the wire at height hh, dd = the cltv_expiry_delta B is
+\* configured with): the incoming HTLC outlives the outgoing one by the configured delta AND by the
+\* hard minimum MIND whatever the configuration says (a configured value below the minimum "is
+\* treated as MIN_CLTV_EXPIRY_DELTA": every margin 2*LGP + 2*MBC + ARD is derived from it), and the
+\* outgoing HTLC is not about to expire: more than LGP blocks are left at the moment it goes out
+\* (the code asks for one block more when it accepts the forward, `<= best + 1 + LGP` is refused,
+\* and exactly this when it releases a forward from the holding cell on a later block).
+MayForward(hh, Eu, Ed, dd) == Eu - Ed >= Max(dd, MIND) /\ Ed > hh + LGP
 
 \* upstream fail-back of a forwarded HTLC: the downstream HTLC was failed by C off chain, or it can
 \* no longer be claimed on chain and that is buried ARD deep
